@@ -10,6 +10,7 @@ from sympy import Indexed, Matrix, ImmutableDenseMatrix
 from sympy import expand
 from sympy.core import Basic, Symbol
 from sympy.core import Add, Mul, Pow
+from sympy.core.function import Function
 from sympy.core.expr import AtomicExpr
 from sympy.core.containers import Tuple
 from sympy.simplify.simplify import simplify
@@ -545,6 +546,14 @@ class TerminalExpr(CalculusFunction):
 
         elif isinstance(expr, Abs):
             return Abs(cls.eval(expr.args[0], domain=domain))
+
+        elif isinstance(expr, Function) and (type(expr).__module__ or '').startswith('sympy.functions.'):
+            # elementary (sympy) function: its arguments must be lowered too, otherwise
+            # generic operators survive inside it, e.g. sin(div(F)) -> sin(Div(F)).
+            # sympde's own operators also derive from sympy's Function; they are
+            # handled by the dedicated branches below.
+            args = [cls.eval(a, domain=domain) for a in expr.args]
+            return expr.func(*args)
 
         elif isinstance(expr, Pow):
             base = cls.eval(expr.base, domain=domain)
